@@ -184,6 +184,21 @@ unsafe impl<T, N: ArrayLength> GenericSequence<T> for Box<GenericArray<T, N>> {
                     alloc::alloc::alloc(Layout::new::<GenericArray<MaybeUninit<T>, N>>()).cast()
                 };
 
+            // If `f` panics the builder below drops the elements written so far, but the
+            // heap block itself must be released too. Declared before the builder so it
+            // is dropped after it.
+            struct DeallocOnUnwind<A>(*mut A);
+
+            impl<A> Drop for DeallocOnUnwind<A> {
+                fn drop(&mut self) {
+                    if size_of::<A>() != 0 {
+                        unsafe { alloc::alloc::dealloc(self.0.cast(), Layout::new::<A>()) }
+                    }
+                }
+            }
+
+            let guard = DeallocOnUnwind(ptr);
+
             let mut builder = IntrusiveArrayBuilder::new(&mut *ptr);
 
             {
@@ -196,6 +211,7 @@ unsafe impl<T, N: ArrayLength> GenericSequence<T> for Box<GenericArray<T, N>> {
             }
 
             builder.finish();
+            core::mem::forget(guard);
 
             Box::from_raw(ptr.cast()) // IntrusiveArrayBuilder::array_assume_init
         }
